@@ -14,8 +14,8 @@ def segJson : Seg → Json
   | .field n c s => Json.arr #[Json.str "field", Json.str (String.ofList n),
       (match c with | none => Json.null | some ch => Json.str (String.ofList [ch])), Json.str (String.ofList s)]
 
-def renderResp (ev : String → Extracted.Expr.Outcome) (tpl : String) (collect : Bool) : Json :=
-  let eff := logAction ev tpl "<tp>" "<ctx>" collect
+def renderResp (ev : String → Extracted.Expr.Outcome) (tpl : String) (collect : Bool) (lg : LoggerObj := .plain) : Json :=
+  let eff := logActionWith lg ev tpl "<tp>" "<ctx>" collect
   let rendered : Json := match render ev tpl with
     | .ok r => Json.mkObj [("msg", Json.str r.msg), ("watches", strs r.watches)]
     | .error e => Json.mkObj [("err", Json.str (errName e))]
@@ -57,7 +57,9 @@ def handle (j : Json) : Except String Json := do
     | .error e => pure (Json.mkObj [("err", Json.str (errName e))])
   | "render" =>
     let ev ← parseOracle j "oracle"
-    pure (renderResp ev tpl (← getBool j "collect"))
+    let lg : LoggerObj := match (getOptStr j "logger").toOption.join with
+      | some "absent" => .absent | some "falsy" => .falsy | _ => .plain
+    pure (renderResp ev tpl (← getBool j "collect") lg)
   | "renderN" =>
     -- several hits of one tracepoint, each with its own frame: no state is shared between them
     let collect ← getBool j "collect"
